@@ -55,7 +55,7 @@ REQUIRED = ["union_volume_checked", "level1_checked", "level2_checked", "levels_
             "two_arm_roots", "two_arm_sampled_levels", "overlapping_neighbours",
             "tangent_neighbours", "disjoint_neighbours", "growing_radii", "tapering_radii",
             "frontend_checked", "named_levels_checked", "same_skeleton_other_radii",
-            "zero_radius_tips", "far_exact_layouts", "other_length_units",
+            "zero_radius_tips", "zero_radius_roots_or_inner_nodes", "far_exact_layouts", "other_length_units",
             "levels_as_numpy_integers", "failed_calls_before_measuring", "lattice_directions",
             "frontend_other_request_spellings"]
 FLOOR = {"quick": 500, "thorough": 20000}
@@ -104,6 +104,11 @@ def layout(case):
             prev, zp, rp = len(z) - 1, zc, rc
         if case.get("zero_tip") and m >= 1:
             r[-1] = 0.0  # a tip that tapers to a point: a cone, a sphere of volume zero
+        if case.get("zero_point") and m >= 1:
+            # a pointed root, or a pointed node in the middle of the line (radius exactly 0 with
+            # thicker neighbours): cones opening away from their parent end
+            k_ = 0 if case["zero_point"] == "root" or m < 2 else len(r) - 1 - max(1, m // 2)
+            r[k_] = 0.0
     return np.array(z), np.array(r), np.array(pid, dtype=np.int32)
 
 
@@ -290,6 +295,8 @@ def exec_union(ctx, case):
         return
     if case.get("zero_tip") and (r == 0).any():
         ctx.count("zero_radius_tips")
+    if case.get("zero_point") and (r == 0).any():
+        ctx.count("zero_radius_roots_or_inner_nodes")
     if case.get("far_exact"):
         ctx.count("far_exact_layouts")
     if case["dir"] == "lattice":
@@ -459,6 +466,8 @@ def run(ctx):
                     "offset": float(rng.choice([0.0, 10.0, 300.0])),
                     "frontend": bool(rng.random() < 0.15),
                     "zero_tip": bool(rng.random() < 0.15), "far_exact": bool(rng.random() < 0.12)}
+            if rng.random() < 0.15:
+                case["zero_point"] = str(rng.choice(["root", "inner"]))
             if not case["far_exact"] and rng.random() < 0.3:
                 # the same shapes expressed in another length unit (mm, nm, ...)
                 case["unit"] = float(rng.choice([1e-3, 1e-2, 1e2, 1e3]))
